@@ -32,6 +32,9 @@ def cfg_full(tier, seed):
                     if (Nr % os or Nc % os) and method == 'dft':
                         continue            # the DFT propagator's output shape is shape*oversample: a full period needs N divisible by it
                     out.append({'N': [Nr, Nc], 'n': [nr, nc], 'os': os, 'method': method})
+                    if nr >= 2 and nc >= 2 and Nr * Nc <= (16 if tier == 'quick' else 36):
+                        # two interleaved segments whose bounding boxes coincide (fields that overlap as arrays), for every propagator
+                        out.append({'N': [Nr, Nc], 'n': [nr, nc], 'os': os, 'method': method, 'seg': 'diag'})
                     # the same aperture as two equal-shape segment masks (several input fields at non-zero offsets)
                     if method == 'dft' and Nr * Nc <= (16 if tier == 'quick' else 36):
                         if nc % 2 == 0:
@@ -56,7 +59,11 @@ def _setup(W, cfg):
     mask = rnp.ones((nr, nc), dtype=int)
     if cfg.get('seg'):
         mask = rnp.zeros((2, nr, nc), dtype=int)
-        if cfg['seg'] == 'cols':
+        if cfg['seg'] == 'diag':
+            rr, cc = rnp.mgrid[0:nr, 0:nc]
+            mask[0] = (rr + cc) % 2 == 0
+            mask[1] = (rr + cc) % 2 == 1
+        elif cfg['seg'] == 'cols':
             mask[0, :, :nc // 2] = 1
             mask[1, :, nc // 2:] = 1
         else:
@@ -101,6 +108,8 @@ def cfg_windows(tier, seed):
             if nr > Nr or nc > Nc:
                 continue
             out.append({'N': [Nr, Nc], 'n': [nr, nc], 'os': 1})
+            if Nr % 2 == 0 and Nc % 2 == 0:
+                out.append({'N': [Nr, Nc], 'n': [nr, nc], 'os': 2})           # windows given in pixels, evaluated in oversampled samples
     return out, len(out), True
 
 
@@ -108,6 +117,17 @@ def run_windows(W, cfg):
     """nested centred windows W1 < W2 < full: every sample is window independent (so sums are monotone once samples are >= 0)."""
     lt, w, du, power, A = _setup(W, cfg)
     Nr, Nc = cfg['N']
+    osw = cfg['os']
+    if osw > 1:
+        full = lt.propagate_dft(w, pixelscale=du, shape=(Nr // osw, Nc // osw), oversample=osw).intensity
+        for Pr in range(1, Nr // osw + 1):
+            for Pc in range(1, Nc // osw + 1):
+                part = lt.propagate_dft(w, pixelscale=du, shape=(Nr // osw, Nc // osw), prop_shape=(Pr, Pc), oversample=osw).intensity
+                wr = optics.centre_window(Nr, Pr * osw)
+                wc = optics.centre_window(Nc, Pc * osw)
+                want = [[full[i, j] if (wr[0] <= i <= wr[1] and wc[0] <= j <= wc[1]) else 0 for j in range(Nc)] for i in range(Nr)]
+                W.ob(f'window of {Pr}x{Pc} pixels at oversample {osw} = full-period samples inside, 0 outside', part, W.array(want))
+        return
     full = lt.propagate_dft(w, pixelscale=du, shape=(Nr, Nc), oversample=1).intensity
     for Pr in range(1, Nr + 1):
         for Pc in range(1, Nc + 1):
